@@ -7,7 +7,9 @@
  *                       (not a successfully configured setting; e.g. the 50-200 kHz template has no bitrate map)
  *   N    : samples per channel; fmax: highest frequency (Hz) any tone/sweep may use (check passes min(0.4 Nyquist, below lowpass));
  *          written <fmax>,<lfe> channel 5 uses <lfe> instead (LFE channel of the 5.1 template, low-passed at ~250 Hz by the encoder)
- *   sig  : t:<k1>,<k2>,..:<M>           stationary chord, tone k of channel c at grid frequency F(k,c,M)
+ *   sig  : t:<k1>,<k2>,..:<M>[:d]       stationary chord, tone k of channel c at grid frequency F(k,c,M); equal amplitudes 0.6/ntones,
+ *                                       with :d the first tone dominates (0.85, the others share 0.1: near full scale),
+ *                                       with :x the :d chord is scaled by 4 (over-range float input, peak 3.8)
  *          b:<k1>,<k2>,..:<M>:<L>:<p>   the same chord under one Hann window of L samples centred at p/1000*N (+ channel offset)
  *          s:<lo>:<hi>                  linear sweep from lo/1000*fmax to hi/1000*fmax (channel c: narrowed band, odd c reversed)
  *          n:<seed>:<K>                 band-limited noise: K sinusoids, LCG frequencies in [0.03,1]*min(fmax,0.3 Nyquist), LCG phases
@@ -22,9 +24,13 @@
  *   lag   : per channel arg max over l in [-LAG,LAG] of sum_n in[n]*out[n+l] (direct evaluation, all lags); LAG=min(4096,N-1)
  *   rat   : per channel r(peak)/second largest local maximum of r (uniqueness of the correlation peak)
  *   ira   : the same ratio for the autocorrelation of the INPUT channel alone (does not depend on the codec)
+ *   iw    : per channel the largest lag l such that the input autocorrelation stays >= 0.98 x its peak on 0..l (resolution of the lag test)
  *   id    : per output channel the input channel with the largest normalised lag-0 correlation; idm = min over channels of
  *           rho(c,c)-max_{j!=c} rho(c,j); xin = max_{c!=j} |rho_in(c,j)| between INPUT channels (distinctness of content)
- * output: <idx> ok n=.. dec=.. fin=.. pki=.. pko=.. snr=a,b,.. lag=a,b,.. rat=a,b,.. id=a,b,.. idm=.. xin=.. rho=a,b,.. lg=.. sh=.. sal=.. cpl=.. bs=../.. nom=..
+ *   pkc/pic: per channel output peak @ position / input peak; aper: lag scan done; lg/sh: long/short blocks; sal: short blocks that
+ *           follow a long block; cpl: coupling steps of the mapping; bs: block sizes; nom: nominal bitrate used for ABR
+ * output: <idx> ok n=.. dec=.. fin=.. pki=.. pko=.. snr=a,b,.. lag=a,b,.. rat=a,b,.. ira=a,b,.. iw=a,b,.. id=a,b,.. idm=.. xin=.. rho=a,b,..
+ *              pkc=v@pos,.. pic=a,b,.. aper=.. lg=.. sh=.. sal=.. cpl=.. bs=../.. nom=..
  *         <idx> skip:<why>      (setting not successfully configured)
  *         <idx> bad:<what>      (machinery / API failure) */
 #include "common.h"
@@ -55,15 +61,17 @@ static int gen(const char *sig,int c,long N,long rate,double fmax,double *x){
   long fade=(long)(0.005*rate); if(fade<8)fade=8;
   memset(x,0,sizeof(double)*N);
   if(sig[0]=='t'||sig[0]=='b'){
-    int ks[16],nk=0,M=0; long L=0,p=0; const char *q=sig+2; char *e;
+    int ks[16],nk=0,M=0,dom=0; long L=0,p=0; const char *q=sig+2; char *e;
     while(nk<16){ ks[nk++]=(int)strtol(q,&e,10); q=e; if(*q!=',')break; q++; }
     if(*q!=':')return -1; M=(int)strtol(q+1,&e,10); q=e;
     if(M<1)return -1;
-    if(sig[0]=='b'){ if(*q!=':')return -1; L=strtol(q+1,&e,10); q=e; if(*q!=':')return -1; p=strtol(q+1,&e,10); if(L<8||L>N)return -1; }
+    if(sig[0]=='b'){ if(*q!=':')return -1; L=strtol(q+1,&e,10); q=e; if(*q!=':')return -1; p=strtol(q+1,&e,10); q=e; if(L<8||L>N)return -1; }
+    if(q[0]==':'&&q[1]=='d')dom=1;
+    if(q[0]==':'&&q[1]=='x')dom=4;
     {
-      double ph[16],f[16],A=0.6/nk; long c0=0;
+      double ph[16],f[16],A=0.6/nk,amp[16]; long c0=0;
       lcg_seed(sig[0],c,M);
-      for(i=0;i<nk;i++){ f[i]=gridf(ks[i],c,M,fmax); ph[i]=2*M_PI*lcg_u(); }
+      for(i=0;i<nk;i++){ f[i]=gridf(ks[i],c,M,fmax); ph[i]=2*M_PI*lcg_u(); amp[i]=dom?dom*(i==0?0.85:(nk>1?0.1/(nk-1):0.0)):A; }
       if(sig[0]=='b'){
         long span=N-L; /* window start in [0,span] */
         c0=(long)((double)p/1000.0*N)-L/2+(long)c*(L/3+17);
@@ -73,8 +81,8 @@ static int gen(const char *sig,int c,long N,long rate,double fmax,double *x){
         double v=0,g;
         if(sig[0]=='b'){ long m=n-c0; if(m<0||m>=L)continue; g=0.5-0.5*cos(2*M_PI*(m+0.5)/L); }
         else g=edge(n,N,fade);
-        for(i=0;i<nk;i++)v+=sin(2*M_PI*f[i]*n/rate+ph[i]);
-        x[n]=A*g*v;
+        for(i=0;i<nk;i++)v+=amp[i]*sin(2*M_PI*f[i]*n/rate+ph[i]);
+        x[n]=g*v;
       }
     }
     return 0;
@@ -132,27 +140,33 @@ static int gen(const char *sig,int c,long N,long rate,double fmax,double *x){
   return -1;
 }
 
+typedef double v4d __attribute__((vector_size(32)));
 /* r[l+L] = sum_n x[n]*y[n+l], l in [-L,L]; y treated as zero outside [0,N).  Direct evaluation of every lag.
  * Input samples that are exactly 0.0 contribute exactly 0 and are skipped (click trains and bursts are sparse). */
 static void xcorr(const double *x,const double *y,long N,long L,double *r,double *yp,long from){
   long l,n,nnz=0; long *ix=(long*)__real_malloc(sizeof(long)*N); double *xv=(double*)__real_malloc(sizeof(double)*N);
-  memset(yp,0,sizeof(double)*(N+2*L+16));
+  memset(yp,0,sizeof(double)*(N+2*L+32));
   memcpy(yp+L,y,sizeof(double)*N);
   for(n=0;n<N;n++)if(x[n]!=0.0){ ix[nnz]=n; xv[nnz]=x[n]; nnz++; }
-  for(l=from;l<2*L+1;l+=8){
-    double a[8]={0,0,0,0,0,0,0,0}; const double *q=yp+l; int k;
+  for(l=from;l<2*L+1;l+=16){
+    double a[16]; const double *q=yp+l; int k;
+    /* 16 lags at once as four 4-wide vectors; every lag is still one sequential sum over n */
+    v4d A0={0,0,0,0},A1={0,0,0,0},A2={0,0,0,0},A3={0,0,0,0};
     if(nnz*4<N){
-      for(n=0;n<nnz;n++){ const double *qq=q+ix[n]; double v=xv[n]; for(k=0;k<8;k++)a[k]+=v*qq[k]; }
-    }else{
-      double a0=0,a1=0,a2=0,a3=0,a4=0,a5=0,a6=0,a7=0;
-      for(n=0;n<N;n++){
-        double v=x[n];
-        a0+=v*q[n]; a1+=v*q[n+1]; a2+=v*q[n+2]; a3+=v*q[n+3];
-        a4+=v*q[n+4]; a5+=v*q[n+5]; a6+=v*q[n+6]; a7+=v*q[n+7];
+      for(n=0;n<nnz;n++){
+        const double *qq=q+ix[n]; v4d v={xv[n],xv[n],xv[n],xv[n]},y0,y1,y2,y3;
+        memcpy(&y0,qq,sizeof(y0)); memcpy(&y1,qq+4,sizeof(y1)); memcpy(&y2,qq+8,sizeof(y2)); memcpy(&y3,qq+12,sizeof(y3));
+        A0+=v*y0; A1+=v*y1; A2+=v*y2; A3+=v*y3;
       }
-      a[0]=a0; a[1]=a1; a[2]=a2; a[3]=a3; a[4]=a4; a[5]=a5; a[6]=a6; a[7]=a7;
+    }else{
+      for(n=0;n<N;n++){
+        v4d v={x[n],x[n],x[n],x[n]},y0,y1,y2,y3;
+        memcpy(&y0,q+n,sizeof(y0)); memcpy(&y1,q+n+4,sizeof(y1)); memcpy(&y2,q+n+8,sizeof(y2)); memcpy(&y3,q+n+12,sizeof(y3));
+        A0+=v*y0; A1+=v*y1; A2+=v*y2; A3+=v*y3;
+      }
     }
-    for(k=0;k<8;k++)if(l+k<=2*L)r[l+k]=a[k];
+    for(k=0;k<4;k++){ a[k]=A0[k]; a[4+k]=A1[k]; a[8+k]=A2[k]; a[12+k]=A3[k]; }
+    for(k=0;k<16;k++)if(l+k<=2*L)r[l+k]=a[k];
   }
   __real_free(ix); __real_free(xv);
 }
@@ -284,7 +298,7 @@ int main(int argc,char **argv){
     if(!res[0]){
       /* ---- metrics (double precision) */
       long M=dec<N?dec:N,n,L=N-1<MAXLAG?N-1:MAXLAG; int c,j; int aper=(sig[0]!='t')||dolag_all;
-      double pki=0,pko=0,pkc[MAXCH],pic[MAXCH],snr[MAXCH],ira[MAXCH],rat[MAXCH],rho[MAXCH][MAXCH],ein[MAXCH],eout[MAXCH],idm=1e9,xin=0; long lag[MAXCH],pkpos[MAXCH]; int id[MAXCH];
+      double pki=0,pko=0,pkc[MAXCH],pic[MAXCH],snr[MAXCH],ira[MAXCH],rat[MAXCH],rho[MAXCH][MAXCH],ein[MAXCH],eout[MAXCH],idm=1e9,xin=0; long lag[MAXCH],pkpos[MAXCH],iw[MAXCH]; int id[MAXCH];
       char *p=res; size_t left=RESN;
       for(c=0;c<ch;c++){
         double se=0,ss=0,so=0;
@@ -307,9 +321,9 @@ int main(int argc,char **argv){
         if(ch>1){ double mx=-1e300; for(j=0;j<ch;j++)if(j!=c&&rho[c][j]>mx)mx=rho[c][j]; if(rho[c][c]-mx<idm)idm=rho[c][c]-mx; }
       }
       if(ch==1)idm=rho[0][0];
-      for(c=0;c<ch;c++){ lag[c]=0; rat[c]=0; ira[c]=0; }
+      for(c=0;c<ch;c++){ lag[c]=0; rat[c]=0; ira[c]=0; iw[c]=0; }
       if(aper&&M>0){
-        double *r=(double*)__real_malloc(sizeof(double)*(2*L+16)),*yp=(double*)__real_malloc(sizeof(double)*(N+2*L+32));
+        double *r=(double*)__real_malloc(sizeof(double)*(2*L+32)),*yp=(double*)__real_malloc(sizeof(double)*(N+2*L+64));
         for(c=0;c<ch;c++){
           long l,bl=0; double bv=-1e300,sv=-1e300;
           /* uniqueness of the INPUT's own autocorrelation peak (a property of the signal alone): lags >= 0, mirrored */
@@ -320,6 +334,8 @@ int main(int argc,char **argv){
             if(l!=L&&r[l]>lft&&r[l]>=rgt&&r[l]>sv)sv=r[l];
           }
           ira[c]=(r[L]>0)?((sv>0)?(r[L]/sv>99?99:r[L]/sv):99.0):0.0;
+          /* flat top of the input autocorrelation: lags whose value stays within 2% of the peak cannot be told from lag 0 */
+          iw[c]=0; for(l=1;l<=L;l++){ if(r[L+l]>=0.98*r[L])iw[c]=l; else break; }
           sv=-1e300;
           xcorr(in[c],out[c],N,L,r,yp,0);
           for(l=0;l<2*L+1;l++)if(r[l]>bv){ bv=r[l]; bl=l; }
@@ -338,6 +354,7 @@ int main(int argc,char **argv){
       ADD(" lag="); for(c=0;c<ch;c++)ADD("%s%ld",c?",":"",lag[c]);
       ADD(" rat="); for(c=0;c<ch;c++)ADD("%s%.3f",c?",":"",rat[c]);
       ADD(" ira="); for(c=0;c<ch;c++)ADD("%s%.3f",c?",":"",ira[c]);
+      ADD(" iw="); for(c=0;c<ch;c++)ADD("%s%ld",c?",":"",iw[c]);
       ADD(" id="); for(c=0;c<ch;c++)ADD("%s%d",c?",":"",id[c]);
       ADD(" idm=%.4f xin=%.4f rho=",idm,xin); for(c=0;c<ch;c++)ADD("%s%.4f",c?",":"",rho[c][c]);
       ADD(" pkc="); for(c=0;c<ch;c++)ADD("%s%.4f@%ld",c?",":"",pkc[c],pkpos[c]);
